@@ -43,7 +43,15 @@ def run(ctx, broken):
     rng = SplitMix(ctx.seed * 1000003 + 2)
     r = VerifyRunner(ctx, "C02")
     n = 18 if ctx.tier == "quick" else 180
-    lines = r.emit("emitforced", forced_entries(rng, n), ctx.seed, 0)
+    ents = forced_entries(rng, n)
+    # assignments on which exactly two identity components are non-zero and cancel (props/c05.py cancel_case): a verifier
+    # whose widget weights let two components share a power of the separation challenge accepts their forced proof
+    from props.c05 import cancel_cases
+    cc = cancel_cases(rng, ("range", "logic", "fixed", "var"), 1 if ctx.tier == "quick" else 4)
+    for c in cc:
+        ents.append("forced 706c6f6e6b || %s || %s" % (c["src"], c["src"]))
+    n = len(ents)
+    lines = r.emit("emitforced", ents, ctx.seed, 0)
     cs = circuits(rng, 0)
     entries = ["fs 706c6f6e6b || %s" % src for (_, src) in cs[:3 if ctx.tier == "quick" else len(cs)]]
     lines += r.emit("emitv", entries, ctx.seed + 7, 0)
@@ -54,7 +62,7 @@ def run(ctx, broken):
         ctx.violation("forced-prover-hook-missing", {"why": "the force-prove hook produced no proof: the C02 corpus is empty"}, no_input=True)
     st["rule"] = ("the honest proving algorithm forced past its unsatisfied-circuit check (hook verif::set_force_prove, remainder "
                   "dropped) on instances violating an arithmetic row, a boolean, a range, a logic output, a copy constraint or a "
-                  "public input (%d instances); forged commitments/evaluations (generator, identity, zero, one, other field), "
+                  "public input, and on rows whose identity components cancel pairwise (%d instances); forged commitments/evaluations (generator, identity, zero, one, other field), "
                   "field-wise splices of two valid proofs of one circuit, all-identity/all-zero proofs. The verifier must return "
                   "an error and agree with the Lean model verifier." % n)
     return st
